@@ -80,15 +80,16 @@ impl Op {
         matches!(self.name, "FGET" | "FSET" | "PGET" | "PSET" | "BGET" | "BSET")
     }
     pub fn is_two_key(&self) -> bool {
-        matches!(self.name, "RENAME" | "RENAMENX" | "RPOPLPUSH" | "LMOVE" | "SORTSTORE" | "EVALSIE")
+        matches!(self.name, "RENAME" | "RENAMENX" | "RPOPLPUSH" | "LMOVE" | "SORTSTORE" | "EVALSIE" | "EVALSHASIE")
     }
     pub fn line(&self) -> String {
         let hk = |i: usize| hex(&self.keys[i]);
         match self.name {
-            "GET" | "STRLEN" | "INCR" | "GETDEL" | "TYPE" | "LPOP" | "RPOP" | "LLEN" | "LRANGE" | "FGET" | "PGET" => {
+            "GET" | "STRLEN" | "INCR" | "GETDEL" | "TYPE" | "LPOP" | "RPOP" | "LLEN" | "LRANGE" | "FGET" | "PGET" | "EGET" | "ESGET"
+            | "EINCR" | "ESINCR" => {
                 format!("{} {}", self.name, hk(0))
             }
-            "SET" | "SETNX" | "APPEND" | "GETSET" | "FSET" | "PSET" => {
+            "SET" | "SETNX" | "APPEND" | "GETSET" | "FSET" | "PSET" | "ESET" | "ESSET" => {
                 format!("{} {} {}", self.name, hk(0), hex(&self.vals[0]))
             }
             "RPUSH" | "LPUSH" => {
@@ -101,7 +102,7 @@ impl Op {
             }
             "RENAME" | "RENAMENX" | "RPOPLPUSH" | "SORTSTORE" => format!("{} {} {}", self.name, hk(0), hk(1)),
             "LMOVE" => format!("LMOVE {} {} {} {}", hk(0), hk(1), String::from_utf8_lossy(&self.vals[0]), String::from_utf8_lossy(&self.vals[1])),
-            "EVALSIE" => format!("EVALSIE {} {} {}", hk(0), hk(1), hex(&self.vals[0])),
+            "EVALSIE" | "EVALSHASIE" => format!("{} {} {} {}", self.name, hk(0), hk(1), hex(&self.vals[0])),
             "MGET" | "DEL" | "EXISTS" | "BGET" => {
                 let mut s = format!("{} {}", self.name, self.keys.len());
                 for k in &self.keys {
@@ -187,6 +188,19 @@ fn show_keys(ks: &[Vec<u8>]) -> String {
     format!("[{}]", ks.iter().map(|k| hex(k)).collect::<Vec<_>>().join(","))
 }
 
+/// a Lua script through EVAL, or through SCRIPT LOAD + EVALSHA
+pub async fn run_script(st: &State, script: &str, by_sha: bool, keys: Vec<String>, args: Vec<SDS>) -> RespValue {
+    if by_sha {
+        let sha = match st.execute(&Command::ScriptLoad(script.to_string())).await {
+            RespValue::BulkString(Some(x)) => String::from_utf8_lossy(&x).to_string(),
+            o => return o,
+        };
+        st.execute(&Command::EvalSha { sha1: sha, keys, args }).await
+    } else {
+        st.execute(&Command::Eval { script: script.to_string(), keys, args }).await
+    }
+}
+
 /// run one op on a real instance, canonical reply text
 pub async fn apply(st: &State, op: &Op) -> String {
     let k0 = || s(&op.keys[0]);
@@ -199,6 +213,16 @@ pub async fn apply(st: &State, op: &Op) -> String {
         "APPEND" => r1(&st.execute(&Command::Append(k0(), sds(&op.vals[0]))).await),
         "STRLEN" => r1(&st.execute(&Command::StrLen(k0())).await),
         "INCR" => r1(&st.execute(&Command::Incr(k0())).await),
+        // the same single-key commands as Lua scripts, through EVAL and through SCRIPT LOAD + EVALSHA
+        "EGET" | "ESGET" | "ESET" | "ESSET" | "EINCR" | "ESINCR" => {
+            let script = match op.name {
+                "EGET" | "ESGET" => "return redis.pcall('GET', KEYS[1])",
+                "ESET" | "ESSET" => "return redis.pcall('SET', KEYS[1], ARGV[1])",
+                _ => "return redis.pcall('INCR', KEYS[1])",
+            };
+            let args: Vec<SDS> = op.vals.iter().map(|v| sds(v)).collect();
+            r1(&run_script(st, script, op.name.starts_with("ES"), vec![k0()], args).await)
+        }
         "GETDEL" => r1(&st.execute(&Command::GetDel(k0())).await),
         "GETSET" => r1(&st.execute(&Command::GetSet(k0(), sds(&op.vals[0]))).await),
         "TYPE" => r1(&st.execute(&Command::TypeOf(k0())).await),
@@ -219,13 +243,14 @@ pub async fn apply(st: &State, op: &Op) -> String {
             r1(&st.execute(&Command::LMove { source: k0(), dest: s(&op.keys[1]), wherefrom: side(&op.vals[0]), whereto: side(&op.vals[1]) }).await)
         }
         "SORTSTORE" => r1(&st.execute(&Command::Sort { key: k0(), store: Some(s(&op.keys[1])) }).await),
-        "EVALSIE" => r1(&st
-            .execute(&Command::Eval {
-                script: "if redis.call('EXISTS', KEYS[1]) == 1 then redis.call('SET', KEYS[2], ARGV[1]) return 1 else return 0 end".to_string(),
-                keys: vec![k0(), s(&op.keys[1])],
-                args: vec![sds(&op.vals[0])],
-            })
-            .await),
+        "EVALSIE" | "EVALSHASIE" => r1(&run_script(
+            st,
+            "if redis.call('EXISTS', KEYS[1]) == 1 then redis.call('SET', KEYS[2], ARGV[1]) return 1 else return 0 end",
+            op.name == "EVALSHASIE",
+            vec![k0(), s(&op.keys[1])],
+            vec![sds(&op.vals[0])],
+        )
+        .await),
         "MGET" => match st.execute(&Command::MGet(skeys())).await {
             RespValue::Array(Some(vs)) => many(&vs),
             o => r1(&o),
@@ -457,6 +482,45 @@ fn keys_case(rng: &mut Rng, corpus: bool) -> Case {
     Case { n, class: "keys", ops }
 }
 
+/// Keys from a structured alphabet: every byte class a router (or a matcher) could treat
+/// specially.  (class, key); all valid UTF-8 — byte-only keys are in `raw` of the mixed classes.
+pub fn special_keys() -> Vec<(&'static str, Vec<u8>)> {
+    let mut v: Vec<(&'static str, Vec<u8>)> = Vec::new();
+    for k in ["{u}:a", "{u}:b", "{user1}:name", "{user1}:mail", "x{u}y", "{u}", "pre{u}", "{u}{v}"] {
+        v.push(("tag-nonempty", k.as_bytes().to_vec()));
+    }
+    for k in ["{}:a", "a{}b", "{}", "{}{u}"] {
+        v.push(("tag-empty", k.as_bytes().to_vec()));
+    }
+    for k in ["{{u}}:a", "{a{b}c}", "{{}}", "{u{v}"] {
+        v.push(("tag-nested", k.as_bytes().to_vec()));
+    }
+    for k in ["{u:a", "u}:a", "}{", "{", "}", "}u{"] {
+        v.push(("tag-unbalanced", k.as_bytes().to_vec()));
+    }
+    for k in ["{t}1", "{t}2", "{t1}x", "{t2}x", "a{t}", "b{t}"] {
+        v.push(("tag-family", k.as_bytes().to_vec()));
+    }
+    for k in ["a:b", "a:b:c", ":", "x y", " ", "tab\there", "k*", "k?", "k[1]", "k\\", "*", "a-b", "^k", "k\r\nX"] {
+        v.push(("punctuation", k.as_bytes().to_vec()));
+    }
+    for k in ["é", "日本", "ключ", "k\u{7f}", "\u{1F600}"] {
+        v.push(("high-bytes-utf8", k.as_bytes().to_vec()));
+    }
+    v.push(("empty", Vec::new()));
+    v.push(("long", vec![b'L'; 300]));
+    v.push(("long", { let mut x = vec![b'L'; 299]; x.push(b'M'); x }));
+    v.push(("long", { let mut x = b"{tag}".to_vec(); x.extend(vec![b'z'; 200]); x }));
+    v
+}
+
+pub fn key_class(k: &[u8]) -> &'static str {
+    if std::str::from_utf8(k).is_err() {
+        return "non-utf8";
+    }
+    special_keys().into_iter().find(|(_, x)| x == k).map(|(c, _)| c).unwrap_or("plain")
+}
+
 fn val(rng: &mut Rng) -> Vec<u8> {
     match rng.below(12) {
         0 => vec![],
@@ -662,6 +726,24 @@ fn corpus(ctx: &Ctx) -> Vec<Case> {
         ops.push(sc.clone());
         cs.push(Case { n, class: "scan", ops });
     }
+    // keys from the structured alphabet through every path: a route that treats some byte class
+    // specially on one path only (e.g. `{tag}` hashing in hash_key but not in hash_key_bytes)
+    // gives the key two homes.  First the literal session of seed C03-hash-tags-only-on-generic-route.
+    for n in [4usize, 16] {
+        let mut ops = vec![Op::kv("FSET", b"{u}:a", b"hi"), Op::k("STRLEN", b"{u}:a"), Op::kv("SET", b"{u}:b", b"x"), Op::k("FGET", b"{u}:b")];
+        for (_, k) in special_keys() {
+            ops.push(Op::kv("FSET", &k, b"f1"));
+            ops.push(Op::k("STRLEN", &k));
+            ops.push(Op::kv("SET", &k, b"g22"));
+            ops.push(Op::k("PGET", &k));
+            ops.push(Op::new("BGET", vec![k.clone()], vec![]));
+            ops.push(Op::k("ESGET", &k));
+            ops.push(Op::kv("APPEND", &k, b"!"));
+            ops.push(Op::k("FGET", &k));
+        }
+        ops.push(Op::nullary("DBSIZE"));
+        cs.push(Case { n, class: "mixed-consistent", ops });
+    }
     // KEYS patterns of every shape (classes, ranges, negation, unterminated, literal only)
     cs.push(keys_case(&mut Rng::new(0xC03), true));
     // RANDOMKEY looked at shard 0 only before fix 4d9bd05: one key that does not live there
@@ -681,15 +763,42 @@ fn random_case(ctx: &Ctx, rng: &mut Rng) -> Case {
         "mixed-any", "two-key:RENAME", "two-key:RENAMENX", "two-key:RPOPLPUSH", "two-key:LMOVE", "two-key:SORTSTORE",
         "two-key:EVALSIE", "multi-key:MSETNX", "randomkey",
     ]);
-    let p = pool();
+    let mut p = pool();
+    // half of the cases draw their keys from the structured alphabet as well
+    if rng.chance(1, 2) {
+        let sp = special_keys();
+        for _ in 0..rng.range(2, 10) {
+            p.insert(rng.below(p.len() as u64) as usize, sp[rng.below(sp.len() as u64) as usize].1.clone());
+        }
+        // … preferably whole families
+        if rng.chance(1, 2) {
+            let fam = *rng.pick(&["tag-nonempty", "tag-family", "tag-unbalanced", "tag-nested", "tag-empty"]);
+            for (c, k) in &sp {
+                if *c == fam {
+                    p.insert(0, k.clone());
+                }
+            }
+        }
+    }
     // key universe of the case
     let mut cand: Vec<Vec<u8>> = match class {
         "mixed-consistent" => p.iter().filter(|k| ctx.gen(k, n) == h_bytes(k, n)).cloned().collect(),
         _ => p.clone(),
     };
-    rng.shuffle(&mut cand);
+    if !rng.chance(1, 3) {
+        rng.shuffle(&mut cand);
+    }
+    cand.dedup();
     let nk = rng.range(3, 9) as usize;
-    let keys: Vec<Vec<u8>> = cand.into_iter().take(nk).collect();
+    let mut keys: Vec<Vec<u8>> = Vec::new();
+    for k in cand {
+        if !keys.contains(&k) {
+            keys.push(k);
+        }
+        if keys.len() >= nk {
+            break;
+        }
+    }
     // keys only the byte paths can carry
     let raw: Vec<Vec<u8>> = vec![vec![0xff, 0xfe], vec![0x80], vec![0x6b, 0xc3]];
     let bytes_paths = class.starts_with("mixed");
@@ -736,7 +845,7 @@ fn random_case(ctx: &Ctx, rng: &mut Rng) -> Case {
             let (a, d) = (pick(rng), pick(rng));
             match name {
                 "LMOVE" => Op::new("LMOVE", vec![a, d], vec![rng.pick(&[&b"L"[..], b"R"]).to_vec(), rng.pick(&[&b"L"[..], b"R"]).to_vec()]),
-                "EVALSIE" => Op::new("EVALSIE", vec![a, d], vec![val(rng)]),
+                "EVALSIE" => Op::new(if rng.chance(1, 2) { "EVALSIE" } else { "EVALSHASIE" }, vec![a, d], vec![val(rng)]),
                 _ => Op::k2(name, &a, &d),
             }
         } else if class == "multi-key:MSETNX" && c < 50 {
@@ -747,8 +856,10 @@ fn random_case(ctx: &Ctx, rng: &mut Rng) -> Case {
             Op::nullary("RANDOMKEY")
         } else {
             match rng.below(30) {
-                0 | 1 => Op::k("GET", &pick(rng)),
-                2 | 3 | 4 => Op::kv("SET", &pick(rng), &val(rng)),
+                0 => Op::k("GET", &pick(rng)),
+                1 => Op::k(*rng.pick(&["GET", "EGET", "ESGET"]), &pick(rng)),
+                2 | 3 => Op::kv("SET", &pick(rng), &val(rng)),
+                4 => Op::kv(*rng.pick(&["SET", "ESET", "ESSET"]), &pick(rng), &val(rng)),
                 5 => Op::kv("SETNX", &pick(rng), &val(rng)),
                 6 => Op::kv("APPEND", &pick(rng), &val(rng)),
                 7 => Op::k("STRLEN", &pick(rng)),
@@ -827,7 +938,7 @@ fn listed_cause(case: &Case, c: &Ctx) -> Option<String> {
         }
         x if x.starts_with("two-key:") => {
             let name = &x["two-key:".len()..];
-            if case.ops.iter().any(|o| o.name == name && c.gen(&o.keys[0], n) != c.gen(&o.keys[1], n)) {
+            if case.ops.iter().any(|o| (o.name == name || (name == "EVALSIE" && o.name == "EVALSHASIE")) && c.gen(&o.keys[0], n) != c.gen(&o.keys[1], n)) {
                 Some(format!("C03:two-key:{}", name))
             } else {
                 None
@@ -959,6 +1070,9 @@ async fn run_case(out: &mut Out, pend: &mut Vec<Pending>, ctx: &Ctx, case: &Case
     let differs = first.is_some() || d1 != dn;
     out.count(&format!("class:{}", case.class));
     out.count(&format!("shards:{}", case.n));
+    for k in universe(&case.ops) {
+        out.count(&format!("keyclass:{}", key_class(&k)));
+    }
     if differs {
         let lines: Vec<String> = case.ops.iter().map(|o| o.line()).collect();
         let (at, what) = match first {
@@ -1286,6 +1400,7 @@ pub fn run(a: &Args) {
         for c in corpus(&ctx) {
             run_case(&mut out, &mut pend, &ctx, &c).await;
         }
+        crate::routes::run(&mut out).await;
         let carries = detect_carries(&ctx).await;
         out.extra.insert("message_kinds_adopting_the_virtual_time(generic,fast_get,fast_set,pooled_get,pooled_set,batch_get,batch_set)".into(), json!(carries));
         for (tn, tops, label) in timed_corpus(&ctx) {
